@@ -35,14 +35,73 @@ def cases(tier, seed):
             scn["pattern"] = pats[int(rng.integers(len(pats)))]
             scn["multi"] = True
         out.append(scn)
+    # two problems of the same dimension on DIFFERENT boxes solved one after the other with ONE SolverParameters object (a parameter
+    # sweep written the obvious way): every evaluation of the second problem, refinement included, must lie in the second box
+    for i in range(48 if tier == "quick" else 1500):
+        rng = scenario.rng_for(seed, "C05P", i)
+        a = scenario.gen_scenario(rng, fams=["linear", "outside", "cones", "wells", "sines"], max_iters=60, refine=True, dims=(1, 2, 2, 3, 4))
+        b = scenario.gen_scenario(rng, fams=["linear", "outside", "cones", "wells", "sines"], max_iters=60, refine=True, dims=(a["N"],))
+        for s_ in (a, b):
+            s_["iters"] = int(rng.integers(10, 60))
+            s_["start_point"] = None
+        out.append({"pair": [a, b], "grp": "shared-parameters", "second": ["solve", "iter-local", "solve-twice"][i % 3]})
     # workloads written by the repository's authors (shipped examples, solving tests) under the same oracle
     out += ambient.ambient_cases(tier)
     return out
 
 
+def run_shared_parameters(c):
+    import contextlib
+    import io
+    from iOpt.solver import Solver
+    record.install_phase_wrappers()
+    del record.PHASE[:]
+    a, b = c["pair"]
+    params = record.make_params(a)
+    viol = []
+    probs = []
+    with contextlib.redirect_stdout(io.StringIO()):
+        pa, _ = record.make_problem(a, cap=a["iters"] + 20)
+        sa = Solver(pa, parameters=params)
+        sa.Solve()
+        params.itersLimit = b["iters"]
+        params.eps = b["eps"]
+        params.r = b["r"]
+        pb, _ = record.make_problem(b, cap=b["iters"] + 40)
+        sb = Solver(pb, parameters=params)
+        if c["second"] == "iter-local":
+            sb.DoGlobalIteration(7)
+            sb.DoLocalRefinement(8)
+            sb.DoGlobalIteration(5)
+            sb.Solve()
+        elif c["second"] == "solve-twice":
+            sb.Solve()
+            sa.DoLocalRefinement(4)
+            sb.Solve()
+        else:
+            sb.Solve()
+    obs = {"runs": 2, "shared_parameter_pairs": 1, "global_evals": 0, "local_evals": 0}
+    for scn, prob, solver in ((a, pa, sa), (b, pb, sb)):
+        if scn["N"] == 1 and record.image_space_degenerate(solver, scn["lower"], scn["upper"]):
+            continue
+        for e in prob.log:
+            obs["global_evals" if e["ph"] == "g" else "local_evals"] += 1
+            if not record.inside_box(e["y"], scn["lower"], scn["upper"]):
+                if len(viol) < 4:
+                    viol.append({"mech": "evaluation-outside-box:" + ("global" if e["ph"] == "g" else "refinement"), "i": e["i"], "point": e["y"].tolist(),
+                                 "lower": scn["lower"], "upper": scn["upper"], "what": "second of two solvers sharing one SolverParameters object" if scn is b else "first"})
+        fin = record.snap_solution(solver.GetResults())
+        if fin["y"] is not None and not record.inside_box(fin["y"], scn["lower"], scn["upper"]):
+            viol.append({"mech": "result-outside-box", "point": fin["y"].tolist(), "lower": scn["lower"], "upper": scn["upper"]})
+    return {"violations": viol, "obs": obs, "nontrivial": True, "key": "shared|%d|%s|%d" % (a["N"], c["second"], obs["local_evals"]),
+            "sample": {"kind": "two solvers, one parameters object", "N": a["N"], "second": c["second"], "local_evals": obs["local_evals"]}}
+
+
 def run_case(scn):
     if "ambient" in scn:
         return ambient.run_ambient_case(scn, "C05")
+    if scn.get("grp") == "shared-parameters":
+        return run_shared_parameters(scn)
     stepviol = []
     stepobs = {"refinement_steps": 0}
     holder = {}
@@ -132,7 +191,7 @@ def run_case(scn):
 def finalize(obs, tier, stats):
     if obs.get("local_evals", 0) < (2000 if tier == "quick" else 20000):
         return "only %d refinement evaluations observed" % obs.get("local_evals", 0), {}
-    miss = [k for k in ("refinement_improved", "result_on_boundary", "local_evals_clipped_to_boundary", "second_refinements_after_more_trials") if not obs.get(k)]
+    miss = [k for k in ("refinement_improved", "result_on_boundary", "local_evals_clipped_to_boundary", "second_refinements_after_more_trials", "shared_parameter_pairs") if not obs.get(k)]
     if miss:
         return "never observed: %s" % miss, {}
     return None, {}
